@@ -6,6 +6,8 @@ package main
 
 import (
 	"fmt"
+	"os"
+	"path/filepath"
 	"strings"
 
 	"github.com/zerx-lab/wordZero/pkg/document"
@@ -161,6 +163,72 @@ func rtTable(rows, cols int) rtCtor {
 	}
 }
 
+// rtImgCfg builds the ImageConfig requested by the i.* tokens (nil if none)
+func rtImgCfg(x *rtCtx, fs []string) *document.ImageConfig {
+	var cfg *document.ImageConfig
+	get := func() *document.ImageConfig {
+		if cfg == nil {
+			cfg = &document.ImageConfig{}
+		}
+		return cfg
+	}
+	for _, f := range fs {
+		switch f {
+		case "i.cfg.empty":
+			get()
+		case "i.size.wh":
+			get().Size = &document.ImageSize{Width: 40, Height: 25}
+		case "i.size.wkeep":
+			get().Size = &document.ImageSize{Width: 30, KeepAspectRatio: true}
+		case "i.size.hkeep":
+			get().Size = &document.ImageSize{Height: 20, KeepAspectRatio: true}
+		case "i.size.wnokeep":
+			get().Size = &document.ImageSize{Width: 30}
+		case "i.align.left":
+			get().Position = document.ImagePositionInline
+			get().Alignment = document.AlignLeft
+		case "i.align.center":
+			get().Position = document.ImagePositionInline
+			get().Alignment = document.AlignCenter
+		case "i.align.right":
+			get().Position = document.ImagePositionInline
+			get().Alignment = document.AlignRight
+		case "i.alt":
+			get().AltText = "alt <text> & E" + fmt.Sprint(x.i)
+		case "i.title":
+			get().Title = "title 标题 E" + fmt.Sprint(x.i)
+		case "i.fl.default":
+			get().Position = document.ImagePositionFloatLeft
+		case "i.fl.none":
+			get().Position = document.ImagePositionFloatLeft
+			get().WrapText = document.ImageWrapNone
+		case "i.fl.square":
+			get().Position = document.ImagePositionFloatLeft
+			get().WrapText = document.ImageWrapSquare
+		case "i.fl.tight":
+			get().Position = document.ImagePositionFloatLeft
+			get().WrapText = document.ImageWrapTight
+		case "i.fl.topbottom":
+			get().Position = document.ImagePositionFloatLeft
+			get().WrapText = document.ImageWrapTopAndBottom
+		case "i.fr.square":
+			get().Position = document.ImagePositionFloatRight
+			get().WrapText = document.ImageWrapSquare
+		case "i.fr.tight":
+			get().Position = document.ImagePositionFloatRight
+			get().WrapText = document.ImageWrapTight
+		case "i.off.x":
+			get().OffsetX = 5
+		case "i.off.y":
+			get().OffsetY = 7.5
+		case "i.off.xy":
+			get().OffsetX = 2.5
+			get().OffsetY = 3
+		}
+	}
+	return cfg
+}
+
 func rtImage(format document.ImageFormat) rtCtor {
 	return func(x *rtCtx, fs []string) (*rtTarget, string) {
 		var data []byte
@@ -172,67 +240,7 @@ func rtImage(format document.ImageFormat) rtCtor {
 		default:
 			data = tinyGIFSize(x.i, 3, 2)
 		}
-		var cfg *document.ImageConfig
-		get := func() *document.ImageConfig {
-			if cfg == nil {
-				cfg = &document.ImageConfig{}
-			}
-			return cfg
-		}
-		for _, f := range fs {
-			switch f {
-			case "i.cfg.empty":
-				get()
-			case "i.size.wh":
-				get().Size = &document.ImageSize{Width: 40, Height: 25}
-			case "i.size.wkeep":
-				get().Size = &document.ImageSize{Width: 30, KeepAspectRatio: true}
-			case "i.size.hkeep":
-				get().Size = &document.ImageSize{Height: 20, KeepAspectRatio: true}
-			case "i.size.wnokeep":
-				get().Size = &document.ImageSize{Width: 30}
-			case "i.align.left":
-				get().Position = document.ImagePositionInline
-				get().Alignment = document.AlignLeft
-			case "i.align.center":
-				get().Position = document.ImagePositionInline
-				get().Alignment = document.AlignCenter
-			case "i.align.right":
-				get().Position = document.ImagePositionInline
-				get().Alignment = document.AlignRight
-			case "i.alt":
-				get().AltText = "alt <text> & E" + fmt.Sprint(x.i)
-			case "i.title":
-				get().Title = "title 标题 E" + fmt.Sprint(x.i)
-			case "i.fl.default":
-				get().Position = document.ImagePositionFloatLeft
-			case "i.fl.none":
-				get().Position = document.ImagePositionFloatLeft
-				get().WrapText = document.ImageWrapNone
-			case "i.fl.square":
-				get().Position = document.ImagePositionFloatLeft
-				get().WrapText = document.ImageWrapSquare
-			case "i.fl.tight":
-				get().Position = document.ImagePositionFloatLeft
-				get().WrapText = document.ImageWrapTight
-			case "i.fl.topbottom":
-				get().Position = document.ImagePositionFloatLeft
-				get().WrapText = document.ImageWrapTopAndBottom
-			case "i.fr.square":
-				get().Position = document.ImagePositionFloatRight
-				get().WrapText = document.ImageWrapSquare
-			case "i.fr.tight":
-				get().Position = document.ImagePositionFloatRight
-				get().WrapText = document.ImageWrapTight
-			case "i.off.x":
-				get().OffsetX = 5
-			case "i.off.y":
-				get().OffsetY = 7.5
-			case "i.off.xy":
-				get().OffsetX = 2.5
-				get().OffsetY = 3
-			}
-		}
+		cfg := rtImgCfg(x, fs)
 		name := fmt.Sprintf("pic E%d.%s", x.i, string(format))
 		info, err := x.doc.AddImageFromData(data, name, format, 3, 2, cfg)
 		if err != nil {
@@ -261,7 +269,7 @@ var rtCtors = map[string]rtCtor{
 	"c.list.nil": func(x *rtCtx, fs []string) (*rtTarget, string) { return rtP(x.doc.AddListItem(rtText(x, fs), nil)) },
 	"c.list.dot": rtBullet(0, document.BulletTypeDot), "c.list.circle": rtBullet(0, document.BulletTypeCircle),
 	"c.list.square": rtBullet(1, document.BulletTypeSquare), "c.list.dash": rtBullet(0, document.BulletTypeDash),
-	"c.list.arrow": rtBullet(2, document.BulletTypeArrow),
+	"c.list.arrow":   rtBullet(2, document.BulletTypeArrow),
 	"c.list.decimal": rtNumbered(0, document.ListTypeDecimal), "c.list.number": rtNumbered(0, document.ListTypeNumber),
 	"c.list.lowerLetter": rtNumbered(1, document.ListTypeLowerLetter), "c.list.upperLetter": rtNumbered(0, document.ListTypeUpperLetter),
 	"c.list.lowerRoman": rtNumbered(0, document.ListTypeLowerRoman), "c.list.upperRoman": rtNumbered(8, document.ListTypeUpperRoman),
@@ -339,6 +347,61 @@ var rtCtors = map[string]rtCtor{
 			return nil, "err"
 		}
 		return rtP(p)
+	},
+	"c.toc.auto": func(x *rtCtx, fs []string) (*rtTarget, string) {
+		p := x.doc.AddHeadingParagraph(rtText(x, fs), 1)
+		cfg := document.DefaultTOCConfig()
+		cfg.Title = fmt.Sprintf("Auto TOC E%d", x.i)
+		if err := x.doc.AutoGenerateTOC(cfg); err != nil {
+			return nil, "err"
+		}
+		return rtP(p)
+	},
+	"c.toc.update": func(x *rtCtx, fs []string) (*rtTarget, string) {
+		p := x.doc.AddHeadingParagraph(rtText(x, fs), 1)
+		cfg := document.DefaultTOCConfig()
+		cfg.Title = fmt.Sprintf("TOC E%d", x.i)
+		if err := x.doc.GenerateTOC(cfg); err != nil {
+			return nil, "err"
+		}
+		x.doc.AddHeadingParagraph(fmt.Sprintf("later heading E%d", x.i), 2)
+		if err := x.doc.UpdateTOC(); err != nil {
+			return nil, "err"
+		}
+		return rtP(p)
+	},
+	"c.list.multi": func(x *rtCtx, fs []string) (*rtTarget, string) {
+		err := x.doc.CreateMultiLevelList([]document.ListItem{
+			{Text: fmt.Sprintf("one E%d", x.i), Level: 0, Type: document.ListTypeDecimal, StartNumber: 1},
+			{Text: fmt.Sprintf("sub E%d", x.i), Level: 1, Type: document.ListTypeBullet, BulletSymbol: document.BulletTypeDash},
+			{Text: rtText(x, fs), Level: 0, Type: document.ListTypeDecimal},
+		})
+		if err != nil {
+			return nil, "err"
+		}
+		return rtP(rtLastPara(x.doc))
+	},
+	"c.tbl.create": func(x *rtCtx, fs []string) (*rtTarget, string) {
+		t, err := x.doc.CreateTable(&document.TableConfig{Rows: 2, Cols: 2, Width: 5000})
+		if err != nil {
+			return nil, "err"
+		}
+		if err := t.SetCellText(1, 1, fmt.Sprintf("E%d", x.i)); err != nil {
+			return nil, "err"
+		}
+		x.doc.Body.AddElement(t)
+		return &rtTarget{T: t}, "ok"
+	},
+	"c.img.file": func(x *rtCtx, fs []string) (*rtTarget, string) {
+		fn := filepath.Join(rtTemp(), fmt.Sprintf("图 E%d.png", x.i))
+		if err := os.WriteFile(fn, tinyPNGSize(20+x.i, 5, 3), 0o644); err != nil {
+			return nil, "tempfile"
+		}
+		info, err := x.doc.AddImageFromFile(fn, rtImgCfg(x, fs))
+		if err != nil {
+			return nil, "err"
+		}
+		return &rtTarget{Img: info, P: rtLastPara(x.doc)}, "ok"
 	},
 	"c.tbl.1x1": rtTable(1, 1), "c.tbl.1x2": rtTable(1, 2), "c.tbl.1x3": rtTable(1, 3),
 	"c.tbl.2x1": rtTable(2, 1), "c.tbl.2x2": rtTable(2, 2), "c.tbl.2x3": rtTable(2, 3),
@@ -537,8 +600,14 @@ var rtFeats = map[string]rtFeat{
 		return "ok"
 	},
 	"p.addtext.empty": onP(func(p *document.Paragraph) { p.AddFormattedText("", &document.TextFormat{Bold: true}) }),
-	"p.addbreak":      onP(func(p *document.Paragraph) { p.AddPageBreak() }),
-	"p.inlinemath":    onP(func(p *document.Paragraph) { p.AddInlineMath("<m:r><m:t>y</m:t></m:r>") }),
+	"p.footnote.torun": func(x *rtCtx, t *rtTarget) string {
+		if t.P == nil || len(t.P.Runs) == 0 {
+			return "ok"
+		}
+		return rtE(x.doc.AddFootnoteToRun(&t.P.Runs[0], fmt.Sprintf("run note E%d", x.i)))
+	},
+	"p.addbreak":   onP(func(p *document.Paragraph) { p.AddPageBreak() }),
+	"p.inlinemath": onP(func(p *document.Paragraph) { p.AddInlineMath("<m:r><m:t>y</m:t></m:r>") }),
 
 	// ---- exported struct fields without a setter (the library's data model expresses them)
 	"p.struct.tabs": onP(func(p *document.Paragraph) {
@@ -854,8 +923,10 @@ var rtSectFeats = map[string]func(x *rtCtx) string{
 			Orientation: document.OrientationLandscape, MarginTop: 11, MarginRight: 12, MarginBottom: 13, MarginLeft: 14,
 			HeaderDistance: 5, FooterDistance: 6, GutterWidth: 2, DocGridType: document.DocGridSnapToLines, DocGridLinePitch: 300, DocGridCharSpace: 100}))
 	},
-	"s.get":            func(x *rtCtx) string { x.doc.GetPageSettings(); return "ok" },
-	"s.header.default": func(x *rtCtx) string { return rtE(x.doc.AddHeader(document.HeaderFooterTypeDefault, "Hdr default <&>")) },
+	"s.get": func(x *rtCtx) string { x.doc.GetPageSettings(); return "ok" },
+	"s.header.default": func(x *rtCtx) string {
+		return rtE(x.doc.AddHeader(document.HeaderFooterTypeDefault, "Hdr default <&>"))
+	},
 	"s.header.first":   func(x *rtCtx) string { return rtE(x.doc.AddHeader(document.HeaderFooterTypeFirst, "Hdr first")) },
 	"s.header.even":    func(x *rtCtx) string { return rtE(x.doc.AddHeader(document.HeaderFooterTypeEven, "Hdr even 页眉")) },
 	"s.footer.default": func(x *rtCtx) string { return rtE(x.doc.AddFooter(document.HeaderFooterTypeDefault, "Ftr default")) },
